@@ -284,11 +284,20 @@ def run(sc, tape_mode="log", script=None, provider=None):
                     ex.update_storage(x, y)
                 bg, _ = storage_rows()
                 x_data, y_data = [x for x, _ in data], [y for _, y in data]
+                # the data in other sequence representations, the arguments by keyword
+                if sc.seed % 3 == 0:
+                    y_data = np.array(y_data)
+                if sc.seed % 4 == 1:
+                    x_data = tuple(x_data)
                 kw2 = {"verbose": False}
                 if sc.n_override is not None:
-                    kw2["n_inner_samples"] = sc.n_override
-                fn = (lambda: ex.explain_many_original(x_data, y_data, **kw2)) if sc.mode == "original" else \
-                     (lambda: ex.explain_many(x_data, y_data, **kw2))
+                    kw2["n_inner_samples"] = np.int64(sc.n_override) if sc.seed % 2 else sc.n_override
+                if sc.seed % 5 == 2:
+                    fn = (lambda: ex.explain_many_original(x_data=x_data, y_data=y_data, **kw2)) if sc.mode == "original" else \
+                         (lambda: ex.explain_many(x_data=x_data, y_data=y_data, **kw2))
+                else:
+                    fn = (lambda: ex.explain_many_original(x_data, y_data, **kw2)) if sc.mode == "original" else \
+                         (lambda: ex.explain_many(x_data, y_data, **kw2))
                 c = one_call(0, fn, sc.rows, bg)
                 c["mode"] = sc.mode
             else:
